@@ -5,13 +5,24 @@ object with a ``random()`` method there replaces the key stream without any
 source edit."""
 
 
-class Stream:
+import random as _random
+
+
+class Stream(_random.Random):
+    """A complete stand-in for the ``random`` module as penman.model sees it: every function of the module
+    exists (it is a ``random.Random``: seed, getstate, setstate, uniform, shuffle, ... and the ``Random`` /
+    ``SystemRandom`` classes), so code that starts using more of the module than ``random()`` keeps working;
+    only the stream of ``random()`` values is the planned one.  In 'seeded' mode it *is* an ordinary
+    Mersenne Twister seeded by the simulator."""
+
+    Random = _random.Random
+    SystemRandom = _random.SystemRandom
+
     def __init__(self, spec):
-        from ..core.rng import Rng
         self.mode = spec.get('mode', 'seeded')
-        self.rng = Rng(spec.get('seed', 0))
         self.calls = 0
         self.values = []
+        super().__init__(int(spec.get('seed', 0)))
 
     def random(self):
         self.calls += 1
@@ -20,9 +31,9 @@ class Stream:
         elif self.mode == 'decreasing':
             v = 1.0 / (1 + self.calls)
         elif self.mode == 'two':
-            v = 0.25 if self.rng.random() < 0.5 else 0.75
+            v = 0.25 if super().random() < 0.5 else 0.75
         else:
-            v = self.rng.random()
+            v = super().random()
         self.values.append(v)
         return v
 
